@@ -1,16 +1,24 @@
 """C17 -- string / bytes / stream / file entry points agree; I/O faults become pybtex errors.
 
-Four driver ops (lean/PybtexModel/Drv/C17.lean):
+Five case families, four driver ops (lean/PybtexModel/Drv/C17.lean):
 
 entrypoints  one (database, format name, encoding): every reader (resp. writer) entry point of the REAL code is run on
              it -- module functions, BibliographyData methods, plug-in methods, real temporary files, file objects,
-             in-memory streams, every registered suffix -- and canonicalised; a probe subclass of the real plug-in
-             class records what the dispatch layer hands to the plug-in's own core, which is what the model computes
-             (codec = finite table filled with the real codec's answers).  With `world`: the same through a patched
-             `pybtex.io` (in-memory files, chosen opens fail).
+             in-memory streams (named and unnamed), every registered suffix -- and canonicalised; a probe subclass of the
+             real plug-in class records what the dispatch layer hands to the plug-in's own core, which is what the model
+             computes (codec = finite table filled with the real codec's answers).  Format names: the installed names and
+             aliases, and two SYNTHETIC third-party plug-ins (BaseParser / BaseWriter subclasses overriding only
+             parse_stream / write_stream, unicode_io True and False) registered through register_plugin under a name, an
+             alias and a suffix.  With `world`: the same through a patched `pybtex.io` (in-memory files, chosen opens
+             fail).  With `more`: parse_files over 0..3 real files, one possibly missing, against parsing the strings in
+             turn on one parser.
 plughist     a history of register_plugin / find_plugin / enumerate_plugin_names calls on the real module
              (`_RUNTIME_PLUGINS` emptied before, restored after).
-openmatrix   one call of open_raw / open_unicode in a world where chosen opens fail, isfile / kpsewhich / environ given.
+openmatrix   one call of open_raw / open_unicode in a world where chosen opens fail, isfile / environ given, and the
+             process `pybtex.kpathsea.kpsewhich` starts replaced (return code + output, or cannot be started): the real
+             kpsewhich function runs.
+kpse         open_raw / open_unicode / parse_file with NOTHING patched: real temporary files and a kpsewhich program of
+             our own first on PATH (driver op openmatrix).
 pathfn       os.path.splitext, posixpath.join.
 """
 import contextlib
@@ -32,18 +40,26 @@ from props.base import corpus_for
 ID = 'C17'
 LEAN_MODULES = ['PybtexModel.Props.C17', 'PybtexModel.Props.WiringC17']
 THEOREMS = {
-    'C17_parse_entry_points': 'BaseParser (both unicode_io values) and the BibTeX class: if the encoding represents the text, parse_bytes(enc s) = '
-                              'parse_stream(stream of s) = parse_file(file-like) = parse_file(file containing enc s) = parse_files(base, suffix) = parse_string(s)',
-    'C17_parse_entry_points_bibtexml': 'BibTeXML: for bytes that ElementTree reads as it reads the text (e.g. the declared, encoded document) parse_bytes = '
-                                       'parse_stream = parse_file(file-like) = parse_file(path) = parse_string, whatever `encoding` is',
+    'C17_parse_entry_points': 'BaseParser (both unicode_io values) and the classes whose parse_string is the text core (BibTeX; BibTeXML after fix C17-4): if the '
+                              'codec represents the text (dec(enc s) = s, the only fact used about it) and the ONE open call parse_file makes succeeds, '
+                              'parse_bytes(enc s) = parse_stream(stream of s) = parse_file(file-like) = parse_file(file containing enc s) = parse_files([base], suffix) '
+                              '= parse_string(s)',
+    'C17_parse_entry_points_bibtexml': 'BibTeXML (reader after fix C17-4): for the DECLARED document the writer produces, enc(xmlDecl name ++ s ++ newline), with the '
+                                       'explicit hypotheses "the codec represents that document" (whatever it is called) and "ElementTree ignores the declaration inside a str": '
+                                       'parse_bytes = parse_stream = parse_file(file-like) = parse_file(path) = parse_string(s)',
+    'C17_parse_files': 'parse_files is the sequential composition of parse_file on one parser: no file -> the database unchanged and nothing opened; fs1 ++ fs2 -> fs1 then fs2 '
+                       'on the result; a failure in the middle -> that error, the events so far, no later file looked at',
     'C17_write_entry_points': 'BaseWriter: unicode_io -> to_bytes = enc(to_string) unconditionally; byte plug-ins -> to_string = dec(to_bytes) and write_file leaves '
-                              'exactly to_bytes after one open; a file-like object receives what write_stream writes; core errors are the same everywhere',
-    'C17_write_file_partial': 'unicode_io plug-ins: write_file leaves exactly to_bytes in the file after one text-mode open with the encoding, PROVIDED the document is '
-                              'not empty or the codec encodes "" as no bytes',
-    'C17_write_file_neg': 'witness that the proviso is needed: empty document + byte-order-mark codec: to_bytes is the mark, the file stays empty (finding C17-empty-document-bom)',
+                              'exactly to_bytes after one open; a file-like object receives what write_stream writes; core errors are the same everywhere '
+                              '(world: only the one open call write_file makes is assumed to succeed)',
+    'C17_write_file_partial': 'unicode_io plug-ins: write_file leaves exactly to_bytes in the file after one text-mode open with the encoding, PROVIDED write_stream '
+                              'calls stream.write at least once or the codec encodes "" as no bytes',
+    'C17_write_file_neg': 'witness that the proviso is needed: no write call + byte-order-mark codec: to_bytes is the mark, the file stays empty (finding C17-empty-document-bom)',
     'C17_write_entry_points_bibtexml': 'BibTeXML: to_bytes = enc(XML declaration naming the encoding ++ to_string ++ newline); write_file writes exactly that',
     'C17_suffix_eq_name': 'regenerated tables: every suffix entry is found from EVERY file name dir/stem.sfx, its class is reachable by a name or alias, and every '
                           'named class with a default_suffix is what that suffix selects',
+    'C17_module_functions': 'database.parse_* / BibliographyData.to_*: a class given as format is used as it is, no format + unnamed stream = the default plug-in, and over the '
+                            'regenerated tables every reader / writer suffix selects from every file name the class some format name selects',
     'C17_tables_wf': 'regenerated tables: no duplicate (group, name), groups are base groups or their .aliases/.suffixes, defaults exist, importlib.metadata = setup.py',
     'C17_classes_wf': 'regenerated class wiring (unicode_io + overridden entry points) of every installed reader/writer is one the model knows, and the three formats '
                       'are wired as the theorems are applied to them',
@@ -51,26 +67,36 @@ THEOREMS = {
                            'returns False and the registry is unchanged; the two-table implementation refines the one-table reference for the whole history',
     'C17_runtime_found_like_installed': 'a run-time name is found by name, a run-time alias by name unless a real name hides it, a run-time suffix from every file name dir/stem.sfx',
     'C17_installed_not_shadowed': 'after ANY history without a forced registration every installed key still yields its installed class',
-    'C17_open_faults': 'all worlds: file-like passes through; every failure is the PybtexError for the name given; read = one attempt (name if file, else kpsewhich result, '
-                       'else name); write = first attempt, then TEXMFOUTPUT-joined second attempt iff set, success there is success, double failure reports the first error',
+    'C17_enumerate_plugin_names': 'enumerate_plugin_names lists exactly the names an exact lookup in the group finds (run-time and installed alike, never an alias or suffix), '
+                                  'run-time names first; a registration in another group never changes it',
+    'C17_open_faults': 'all worlds: file-like passes through; every failure is the PybtexError for the name given; read = one attempt (name if file, else what kpsewhich '
+                       'returned, else name); write = first attempt, then TEXMFOUTPUT-joined second attempt iff set, success there is success, double failure reports the first error',
+    'C17_kpsewhich': 'pybtex.kpathsea.kpsewhich for every behaviour of the program: cannot be started -> pybtex error for the name, nothing opened; non-zero exit -> the name '
+                     'itself is opened; exit 0 -> the printed bytes minus trailing ASCII white space are opened as a bytes path (the name itself if nothing is left)',
     'C17_fallback_path': 'posixpath.join(dir, name) is dir/name for a relative name (dir non-empty, no trailing slash); an absolute name is retried unchanged',
 }
-RULE = ('entry points: a fixed set of hand-made databases x every installed reader/writer name and alias x encodings {default, utf-8, utf-16, latin-1 when '
-        'representable} x every entry point x every registered suffix (exhaustive over that configuration space), plus seeded random databases (bibgen) with '
-        'non-ASCII / astral text injected; plug-in histories: every sequence of <= L registrations over a 14-call alphabet with 8 probes after each call, error '
-        'calls, every installed entry; open matrix: every combination of {isfile, kpsewhich none/found/empty/error, open fails at name / at found / at fall-back, '
-        'TEXMFOUTPUT unset/dir/dir-slash/empty, relative/nested/absolute name, raw/unicode, file-like}; splitext over {a . /}^<=6, join over {a /}^<=3 pairs; '
-        'non-trivial = anything but a skipped case; distinct by case JSON')
-TRUSTED = ['codecs (utf-8, utf-16, latin-1), TextIOWrapper, the file system, PyYAML, xml.sax / ElementTree, latexcodec: exercised for real, never modelled',
+RULE = ('entry points: a fixed set of hand-made databases x every installed reader/writer name and alias + two synthetic third-party plug-ins (unicode_io True / False, '
+        'registered at run time) x encodings {default, utf-8, utf-16, latin-1, alias spellings utf8 / UTF8 / U8 / L1, utf-8-sig, utf-16-le, utf-32, cp1252, iso-8859-15, '
+        'ascii -- when representable} x every entry point x every registered suffix (exhaustive over that configuration space); parse_files over 0..3 files with a '
+        'missing file at each position; seeded random databases (bibgen) with non-ASCII / astral text injected; plug-in histories: every sequence of <= L registrations '
+        'over a 14-call alphabet with 8 probes after each call, error calls, every installed entry; open matrix: every combination of {isfile, kpsewhich program: exit 1 / '
+        'found / empty / cannot start / no newline / trailing white space / output but exit 1 / killed / non-ASCII path, open fails at name / at found / at fall-back, '
+        'TEXMFOUTPUT unset/dir/dir-slash/empty, relative/nested/absolute name, raw/unicode, file-like}; real files + a kpsewhich program of our own on PATH; '
+        'splitext over {a . /}^<=6, join over {a /}^<=3 pairs; non-trivial = anything but a skipped case; distinct by case JSON')
+TRUSTED = ['codecs, TextIOWrapper, the file system, subprocess + /bin/sh (kpse family), PyYAML, xml.sax / ElementTree, latexcodec: exercised for real, never modelled',
            'importlib.metadata.entry_points is memoised per argument tuple inside the harness process (a pure function of the installed metadata; 3 ms per call otherwise)',
-           'probe subclasses of the real plug-in classes replace ONLY the plug-in core (parse_stream / the BibTeX text parser / ElementTree) to record what the '
+           'probe subclasses of the real plug-in classes replace ONLY the plug-in core (parse_stream / the text parser) to record what the '
            'dispatch layer hands over; every result compared by the oracle comes from the unmodified classes',
-           'failure worlds are built by patching the names `io`, `posixpath`, `kpsewhich`, `environ` inside pybtex.io (unittest.mock), never the global modules']
-ASSUMPTIONS = ['text-mode newline translation is the identity on the generated documents (no CR in them; POSIX)',
-               'a text-mode file holds str.encode of what was written to it, except that it stays empty when no character was written (modelled: textFile); '
-               'hence finding C17-empty-document-bom: EMPTY document under a BOM-writing codec (utf-16: "".encode gives the BOM): its witness cases are generated '
-               'only when the finding is listed in known_findings.json, skipped (bucket entrypoints:skip) otherwise',
-               'a (format, encoding) pair is exercised only when the encoding can represent the document']
+           'failure worlds are built by patching the names `io`, `posixpath`, `environ` inside pybtex.io and `Popen` inside pybtex.kpathsea (unittest.mock), never the '
+           'global modules; the kpse family patches nothing (PATH of the worker process is changed for the duration of one case)']
+ASSUMPTIONS = ['POSIX: writing to a text-mode file translates nothing (os.linesep is the line feed); reading one translates CRLF and CR to LF (modelled: univNl; '
+               'documents with carriage returns are generated from programmatically built databases)',
+               'a text-mode file holds str.encode of what was written to it, except that it stays empty when write was never called (modelled: textFile); '
+               'hence finding C17-empty-document-bom: EMPTY document written without any write call under a BOM-writing codec (utf-16, utf-32, utf-8-sig: "".encode gives '
+               'the BOM): its witness cases are generated only when the finding is listed in known_findings.json, skipped (bucket entrypoints:skip) otherwise',
+               'a (format, encoding) pair is exercised only when the encoding can represent the document',
+               'BibTeXML reader: the model follows /repo WITH proposed fix C17-4 (the reader decodes with the encoding it was given); "ElementTree ignores an XML '
+               'declaration inside a str" is hypothesis hdecl of C17_parse_entry_points_bibtexml, exercised by the correspondence']
 SERIAL = False
 
 READER_METHODS = ('parse_file', 'parse_files', 'parse_string', 'parse_bytes', 'parse_stream')
@@ -128,13 +154,66 @@ def installed_table():
 
 
 def suffixes_of(group, cls):
+    """suffixes registered for the class: installed ones, then those registered at run time (the synthetic plug-ins)"""
+    import pybtex.plugin as P
     cid = class_id(cls)
-    return sorted(n for g, n, v in installed_table() if g == group + '.suffixes' and v == cid)
+    inst = sorted(n for g, n, v in installed_table() if g == group + '.suffixes' and v == cid)
+    return inst + sorted(n for n, k in P._RUNTIME_PLUGINS.get(group + '.suffixes', {}).items() if k is cls and n not in inst)
 
 
 def family(cls):
     m = cls.__module__.rsplit('.', 1)[-1]
     return {'bibtex': 'bibtex', 'bibtexml': 'bibtexml'}.get(m, 'base')
+
+
+# ---- synthetic third-party plug-ins: minimal BaseParser / BaseWriter subclasses that override ONLY parse_stream / write_stream,
+# ---- one with unicode_io = True and one with False, registered through register_plugin (name, alias, suffix).  Their "format" is
+# ---- BibTeX text, so that what they return can be compared; everything between the public entry point and parse_stream /
+# ---- write_stream is BaseParser / BaseWriter code that no installed class exercises any more for unicode_io = False.
+
+SYNTH = {'verif-synu': (True, '.vsynu', 'verif-synthetic-text'), 'verif-synb': (False, '.vsynb', 'verif-synthetic-bytes')}
+
+
+def _synth_classes():
+    g = globals()
+    if '_SYNTH' in g:
+        return g['_SYNTH']
+    from pybtex.database.input import BaseParser
+    from pybtex.database.output import BaseWriter
+
+    def parse_stream(self, stream):
+        from pybtex.database.input.bibtex import Parser
+        got = stream.read()
+        text = got if self.unicode_io else got.decode(self.encoding)      # a byte plug-in is handed bytes in ITS encoding
+        inner = Parser(encoding=self.encoding)
+        inner.data = self.data
+        inner.parse_string(text)
+        return self.data
+
+    def write_stream(self, bib_data, stream):
+        from pybtex.database.output.bibtex import Writer
+        text = Writer(encoding=self.encoding).to_string(bib_data)
+        stream.write(text if self.unicode_io else text.encode(self.encoding))
+
+    out = {}
+    for name, (u, sfx, _alias) in SYNTH.items():
+        tag = 'Text' if u else 'Bytes'
+        out[name] = (type('Synthetic%sReader' % tag, (BaseParser,), {'unicode_io': u, 'default_suffix': sfx, 'parse_stream': parse_stream}),
+                     type('Synthetic%sWriter' % tag, (BaseWriter,), {'unicode_io': u, 'write_stream': write_stream}))
+    g['_SYNTH'] = out
+    return out
+
+
+def ensure_synth():
+    """Register the synthetic plug-ins in this process (idempotent; impl_plughist saves and restores the registry)."""
+    import pybtex.plugin as P
+    classes = _synth_classes()
+    for name, (u, sfx, alias) in SYNTH.items():
+        for group, cls in ((IN, classes[name][0]), (OUT, classes[name][1])):
+            if P._RUNTIME_PLUGINS.get(group, {}).get(name) is not cls:
+                P.register_plugin(group, name, cls, force=True)
+                P.register_plugin(group + '.aliases', alias, cls, force=True)
+                P.register_plugin(group + '.suffixes', sfx, cls, force=True)
 
 
 def err(e):
@@ -184,9 +263,34 @@ FIXED_DBS = [
 
 
 def bib_source(case):
+    if 'db' in case:
+        return json.dumps(case['db'], ensure_ascii=False)      # (only its representability is looked at)
     if 'bib' in case:
         return case['bib']
     raise ValueError('case without a database')
+
+
+def build_db(d):
+    """A database built programmatically ({'preamble': [...], 'entries': [[key, type, [[field, value]...], [[role, [name...]]...]]]}): field
+    values reach the writers as they are (raw CR, tabs, outer blanks), which no .bib source can achieve -- the reader normalises white space."""
+    from pybtex.database import BibliographyData, Entry, Person
+    db = BibliographyData(preamble=list(d.get('preamble', [])))
+    for key, typ, fields, persons in d['entries']:
+        e = Entry(typ, fields=[(f, v) for f, v in fields])
+        for role, names in persons:
+            for n in names:
+                e.add_person(Person(n), role)
+        db.add_entry(key, e)
+    return db
+
+
+def case_db(case):
+    if 'db' in case:
+        try:
+            return build_db(case['db'])
+        except Exception:  # noqa -- not a database
+            return None
+    return make_db(case['bib'])
 
 
 def make_db(src):
@@ -198,6 +302,27 @@ def make_db(src):
     if captured:
         return None
     return db
+
+
+def _calls_write(cls, kw, db, u):
+    """Does write_stream call stream.write at all?  (A text file emits the byte-order mark with the first write call.)"""
+    base = _io.StringIO if u else _io.BytesIO
+
+    class Rec(base):
+        calls = 0
+
+        def write(self, x):
+            Rec.calls += 1
+            return base.write(self, x)
+
+        def writelines(self, xs):
+            Rec.calls += 1
+            return base.writelines(self, xs)
+    try:
+        cls(**kw).write_stream(db, Rec())
+    except Exception:  # noqa -- reported by the entry points themselves
+        return True
+    return Rec.calls > 0
 
 
 def representable(text, enc):
@@ -229,6 +354,7 @@ def prepare(case):
 def _prepare(case):
     """-> dict(skip=reason) | dict(cls, u, ov, enc_name, codec, db, text [reader: s, b])"""
     _memo_entry_points()
+    ensure_synth()
     from pybtex.plugin import find_plugin
     from pybtex.exceptions import PybtexError
     side = case['side']
@@ -237,7 +363,7 @@ def _prepare(case):
         cls = find_plugin(group, case['fmt'])
     except PybtexError as e:
         return {'skip': 'no plug-in: %s' % e}
-    db = make_db(bib_source(case))
+    db = case_db(case)
     if db is None:
         return {'skip': 'source database has errors'}
     kw = {} if case['enc'] is None else {'encoding': case['enc']}
@@ -260,11 +386,11 @@ def _prepare(case):
         else:
             return {'skip': 'writer failed: %s' % type(e).__name__}
     if text is not None:
-        if '\r' in text:
-            return {'skip': 'document contains CR'}
         if not representable(text, enc_name):
             return {'skip': 'encoding cannot represent the document'}
-    if side == 'write' and text == '' and ''.encode(enc_name) != b'' and u and not finding_listed(FINDING_BOM):
+    if side == 'write' and text is not None:
+        p['wrote'] = _calls_write(cls, kw, db, u)
+    if side == 'write' and text == '' and ''.encode(enc_name) != b'' and u and not p['wrote'] and not finding_listed(FINDING_BOM):
         return {'skip': 'empty document under a BOM codec (finding %s not listed)' % FINDING_BOM}
     p['text'] = text
     if side == 'read' and case.get('source') == 'bib' and p['family'] == 'bibtex':
@@ -273,7 +399,11 @@ def _prepare(case):
             p['text'] = text = src
     if side == 'read':
         p['s'] = text
-        p['b'] = (xml_decl(enc_name) + text + '\n').encode(enc_name) if p['family'] == 'bibtexml' else text.encode(enc_name)
+        # the bytes that "correspond to the text": for BibTeXML what the writer produces, the declared document
+        p['doc'] = xml_decl(enc_name) + text + '\n' if p['family'] == 'bibtexml' else text
+        if not representable(p['doc'], enc_name):
+            return {'skip': 'encoding cannot represent the document'}
+        p['b'] = p['doc'].encode(enc_name)
     return p
 
 
@@ -303,6 +433,30 @@ WRITER_ENTRIES = [{'entry': 'to_string'}, {'entry': 'to_bytes'}, {'entry': 'writ
                   {'entry': 'write_file_stream'}]
 
 
+def multi_docs(case):
+    """parse_files family: the prepared documents of the files (case['bib'] then case['more']), or a skip marker"""
+    ps = []
+    for bib in [case['bib']] + list(case['more']):
+        q = prepare({k: v for k, v in dict(case, bib=bib).items() if k not in ('more', 'missing', 'nfiles')})
+        if 'skip' in q or q.get('text') is None:
+            return None
+        ps.append(q)
+    return ps[:case['nfiles']]
+
+
+def _docs_of(ps):
+    out = []
+    for q in ps:
+        for t in (q['s'], q['doc']):
+            if t not in out:
+                out.append(t)
+    return out
+
+
+def _files_req(pairs):
+    return [[f, hx(b)] for q, b in pairs for f in both_forms(q)]
+
+
 def req_entrypoints(case):
     p = prepare(case)
     if 'skip' in p or p.get('text') is None:
@@ -311,32 +465,39 @@ def req_entrypoints(case):
     world = case.get('world')
     if case['side'] == 'read':
         sfx = (suffixes_of(IN, p['cls']) or ['.dat'])[0]
-        files = [['F' + sfx, hx(p['b'])]]
+        base = {'op': 'entrypoints', 'side': 'read', 'u': p['u'], 'ov': p['ov'], 'enc': enc, 'codec': _codec_pairs(_docs_of([p]), enc),
+                'utf8': [], 's': p['s'], 'b': hx(p['b'])}
+        if 'more' in case:
+            docs = multi_docs(case)
+            if docs is None or (case.get('missing') is not None and not can_run_scripts()):
+                return {'op': 'ping', 's': ''}
+            present = [i for i in range(len(docs)) if i != case.get('missing')]
+            names = ['G%d%s' % (i, sfx) for i in range(len(docs))]
+            w = dict(PLAIN_WORLD, isfile=[names[i] for i in present])
+            return dict(base, codec=_codec_pairs(_docs_of(docs), enc), files=_files_req([(names[i], docs[i]['b']) for i in present]),
+                        world=world_req(w, only=[names[i] for i in present]),
+                        entries=[{'entry': 'parse_files', 'bases': ['G%d' % i for i in range(len(docs))], 'suffix': sfx}])
         if world is None:
-            world = dict(PLAIN_WORLD, isfile=['F' + sfx])
-            entries = _reader_entries(p, sfx)
-        else:
-            entries = [{'entry': 'parse_file_path', 'path': case['path']}]
-            files = [[f, hx(_fault_bytes(case, p))] for f in case['files']]
-            # the in-memory file system of the implementation side has no other file
-            tried = [case['path']] + ([world['locate']['path']] if world['locate']['kind'] == 'found' and world['locate']['path'] else [])
-            missing = [[q, 'No such file or directory'] for q in tried if q not in case['files'] and q not in dict(map(tuple, world['fail']))]
-            world = dict(world, fail=world['fail'] + missing)
-        return {'op': 'entrypoints', 'side': 'read', 'u': p['u'], 'ov': p['ov'], 'enc': enc, 'codec': _codec_pairs([p['s']], enc),
-                'utf8': [], 'files': files, 'world': world, 'entries': entries, 's': p['s'], 'b': hx(p['b'])}
+            w = world_req(dict(PLAIN_WORLD, isfile=['F' + sfx]))
+            return dict(base, files=_files_req([('F' + sfx, p['b'])]), world=w, entries=_reader_entries(p, sfx))
+        # a fault world: the in-memory file system of the implementation side has exactly case['files']
+        return dict(base, files=_files_req([(f, _fault_bytes(case, p)) for f in case['files']]), world=world_req(world, only=case['files']),
+                    entries=[{'entry': 'parse_file_path', 'path': case['path']}])
     text = p['text']
     core_text = text + '\n' if p['family'] == 'bibtexml' else text
     strings = [text, xml_decl(enc) + core_text] if p['family'] == 'bibtexml' else [text]
     entries = WRITER_ENTRIES if world is None else [{'entry': 'write_file_path', 'path': case['path']}]
     return {'op': 'entrypoints', 'side': 'write', 'u': p['u'], 'ov': p['ov'], 'enc': enc, 'codec': _codec_pairs(strings, enc),
-            'utf8': _codec_pairs([core_text], 'utf-8'), 'files': [], 'world': world or PLAIN_WORLD, 'text': core_text, 'entries': entries}
+            'utf8': _codec_pairs([core_text], 'utf-8'), 'files': [], 'world': world_req(world or PLAIN_WORLD), 'text': core_text,
+            'wrote': p.get('wrote', True), 'entries': entries}
 
 
 # ---- probes: what the dispatch layer hands to the plug-in's own core ------------------------------
 
-def _probe_class(cls, fam, rec):
-    """(Probe class, context manager factory)"""
-    if fam == 'bibtexml':
+def _probe_class(cls, ov, rec):
+    """(Probe class, context manager factory): a subclass of the real class whose own core only records what it is handed.
+    Chosen by the WIRING of the class (which entry points it overrides), as the model is."""
+    if 'parse_bytes' in ov:          # a class that hands bytes to ElementTree itself (the BibTeXML reader before fix C17-4)
         import pybtex.database.input.bibtexml as M
 
         class FakeET(object):
@@ -353,7 +514,7 @@ def _probe_class(cls, fam, rec):
             def parse_tree(self, tree):
                 return self.data
         return Probe, lambda: mock.patch.object(M, 'ET', FakeET)
-    if fam == 'bibtex':
+    if 'parse_string' in ov:         # parse_string is the text core (BibTeX; BibTeXML after fix C17-4)
         class Probe(cls):
             def parse_string(self, text):
                 rec.append(['parse_string', text])
@@ -388,6 +549,7 @@ def _own_stream(p, path=None):
 def impl_read(case, p):
     from pybtex import database
     from pybtex.database import BibliographyData
+    from pybtex.plugin import find_plugin
     cls, kw, s, b, fmt = p['cls'], p['kw'], p['s'], p['b'], case['fmt']
     sfxs = suffixes_of(IN, cls) or ['.dat']
     results, paths = {}, []
@@ -407,6 +569,8 @@ def impl_read(case, p):
         for sfx in sfxs:
             results['parse_file(path%s)' % sfx] = _run_entry(lambda: database.parse_file(files[sfx], **kw))
         results['parse_file(memory stream,name)'] = _run_entry(lambda: database.parse_file(_own_stream(p), fmt, **kw))
+        if cls is find_plugin(IN):        # an unnamed stream and no format: the default plug-in of the group
+            results['parse_file(unnamed memory stream, no format)'] = _run_entry(lambda: database.parse_file(_own_stream(p), **kw))
 
         def with_file(g):
             f = _own_stream(p, first)
@@ -424,7 +588,7 @@ def impl_read(case, p):
         results['find_plugin(class)'] = _run_entry(lambda: database.parse_string(s, cls, **kw))
         # the dispatch paths, through the module functions with the probe class as `bib_format`
         rec = []
-        Probe, ctx = _probe_class(cls, p['family'], rec)
+        Probe, ctx = _probe_class(cls, p['ov'], rec)
         calls = [
             lambda: database.parse_string(s, Probe, **kw),
             lambda: database.parse_bytes(b, Probe, **kw),
@@ -446,6 +610,129 @@ def impl_read(case, p):
     return {'results': results, 'paths': paths}
 
 
+@contextlib.contextmanager
+def fake_kpsewhich(tmp, script):
+    """Puts a `kpsewhich` of our own first (and alone) on PATH for the duration: the real pybtex.kpathsea.kpsewhich starts it with
+    the real subprocess.Popen.  script: {'kind': 'print', 'rc': n, 'out': text, 'arg': expected argument or None} -- a shell script
+    that prints exactly `out` and exits with `rc` (3 if it was not handed exactly `arg`); {'kind': 'missing'} -- no such program;
+    {'kind': 'noexec'} -- a file of that name that may not be executed."""
+    bindir = os.path.join(tmp, 'bin')
+    os.makedirs(bindir, exist_ok=True)
+    prog = os.path.join(bindir, 'kpsewhich')
+    if script['kind'] == 'print':
+        octal = ''.join('\\0%03o' % b for b in os.fsencode(script['out']))
+        check = "[ \"$#\" = 1 ] && [ \"$1\" = '%s' ] || exit 3\n" % script['arg'] if script.get('arg') is not None else ''
+        with open(prog, 'w') as f:
+            f.write("#!/bin/sh\n%sprintf '%%b' '%s'\nexit %d\n" % (check, octal, script['rc']))
+        os.chmod(prog, 0o755)
+    elif script['kind'] == 'noexec':
+        with open(prog, 'w') as f:
+            f.write('#!/bin/sh\nexit 0\n')
+        os.chmod(prog, 0o644)
+    old = os.environ.get('PATH')
+    os.environ['PATH'] = bindir
+    try:
+        yield
+    finally:
+        if old is None:
+            del os.environ['PATH']
+        else:
+            os.environ['PATH'] = old
+
+
+NOT_FOUND = {'kind': 'print', 'rc': 1, 'out': '', 'arg': None}
+
+
+@functools.lru_cache(maxsize=None)
+def can_run_scripts():
+    """Can a shell script written to the temporary directory be started with the PATH trick (there is a /bin/sh, the directory is not
+    mounted noexec)?  Otherwise the families that need a kpsewhich program of our own are left out (and the scope says so)."""
+    import subprocess
+    tmp = tempfile.mkdtemp(prefix='verif-c17-')
+    try:
+        with fake_kpsewhich(tmp, {'kind': 'print', 'rc': 7, 'out': 'ok\n', 'arg': 'x y'}):
+            p = subprocess.Popen(['kpsewhich', 'x y'], stdout=subprocess.PIPE, stderr=subprocess.PIPE)
+            out = p.communicate()[0]
+            return p.returncode == 7 and out == b'ok\n'
+    except Exception:  # noqa
+        return False
+    finally:
+        shutil.rmtree(tmp, ignore_errors=True)
+
+
+def script_locate(script, sub=lambda x: x):
+    """the world entry that describes what running the script gives"""
+    if script['kind'] == 'print':
+        return {'kind': 'proc', 'rc': script['rc'], 'stdout': sub(script['out'])}
+    return {'kind': 'error', 'strerror': 'No such file or directory' if script['kind'] == 'missing' else 'Permission denied'}
+
+
+def _untmp(x, tmp, repl='<T>'):
+    """canonical form of something that may mention the temporary directory: <T> stands for it"""
+    if isinstance(x, bytes):
+        return {'bytes': hx(os.fsencode(os.fsdecode(x).replace(tmp, repl)))}
+    if isinstance(x, str):
+        return x.replace(tmp, repl)
+    if isinstance(x, dict):
+        return {k: _untmp(v, tmp, repl) for k, v in x.items()}
+    if isinstance(x, list):
+        return [_untmp(v, tmp, repl) for v in x]
+    return x
+
+
+def impl_multi(case, p):
+    """parse_files with 0, 2 or 3 files (one of them possibly missing) on real files, against parsing the strings in turn on
+    ONE parser.  When a file is missing the lookup goes through a kpsewhich of our own that finds nothing."""
+    docs = multi_docs(case)
+    if docs is None:
+        return {'skip': 'a document of the list cannot be used'}
+    if case.get('missing') is not None and not can_run_scripts():
+        return {'skip': 'a shell script in the temporary directory cannot be started on this machine'}
+    cls, kw = p['cls'], p['kw']
+    sfx = (suffixes_of(IN, cls) or ['.dat'])[0]
+    missing = case.get('missing')
+    results, paths = {}, []
+    tmp = tempfile.mkdtemp(prefix='verif-c17-')
+    try:
+        bases = [os.path.join(tmp, 'G%d' % i) for i in range(len(docs))]
+        for i, d in enumerate(docs):
+            if i != missing:
+                with open(bases[i] + sfx, 'wb') as f:
+                    f.write(d['b'])
+
+        def run(klass):
+            try:
+                return {'ok': canon_db(klass(**kw).parse_files(bases, sfx))}
+            except Exception as e:  # noqa
+                return _untmp(_open_error(e), tmp + os.sep, '')
+
+        def reference():
+            parser = cls(**kw)
+            for i, d in enumerate(docs):
+                if i == missing:
+                    return {'missing': 'G%d%s' % (i, sfx)}
+                parser.parse_string(d['s'])
+            return {'ok': canon_db(parser.data)}
+        with fake_kpsewhich(tmp, NOT_FOUND):
+            results['Parser.parse_files'] = run(cls)
+            try:
+                results['reference'] = reference()
+            except Exception as e:  # noqa
+                results['reference'] = err(e)
+            rec = []
+            Probe, ctx = _probe_class(cls, p['ov'], rec)
+            with ctx():
+                try:
+                    Probe(**kw).parse_files(bases, sfx)
+                    paths.append(_rec_json(rec))
+                except Exception as e:  # noqa
+                    oe = _untmp(_open_error(e), tmp + os.sep, '')
+                    paths.append({'err': oe['err'], 'message': oe['message'] if oe['message'].startswith('unable to open') else None})
+    finally:
+        shutil.rmtree(tmp, ignore_errors=True)
+    return {'multi': True, 'results': results, 'paths': paths}
+
+
 def _read_bytes(path):
     with open(path, 'rb') as f:
         return f.read()
@@ -460,6 +747,7 @@ def _write_entry(f, get):
 
 
 def impl_write(case, p):
+    from pybtex.plugin import find_plugin
     cls, kw, db, fmt = p['cls'], p['kw'], p['db'], case['fmt']
     sfxs = suffixes_of(OUT, cls) or ['.dat']
     out = {}
@@ -479,6 +767,9 @@ def impl_write(case, p):
         # a file-like object of the kind the class asks for: the call returns its getvalue()
         mem = _io.StringIO() if p['u'] else _io.BytesIO()
         out['to_file(memory stream,name)'] = _write_entry(lambda: db.to_file(mem, fmt, **kw), streamj)
+        if cls is find_plugin(OUT):       # an unnamed stream and no format: the default plug-in of the group
+            mem2 = _io.StringIO() if p['u'] else _io.BytesIO()
+            out['to_file(unnamed memory stream, no format)'] = _write_entry(lambda: db.to_file(mem2, **kw), streamj)
         # a real file object, format chosen from its name
         fo_path = os.path.join(tmp, 'obj' + sfxs[0])
 
@@ -492,7 +783,7 @@ def impl_write(case, p):
         out['to_file(file object by its name)'] = _write_entry(to_file_object, hx)
     finally:
         shutil.rmtree(tmp, ignore_errors=True)
-    return {'results': out, 'meta': {'family': p['family'], 'enc': p['enc_name'], 'u': p['u']}}
+    return {'results': out, 'meta': {'family': p['family'], 'enc': p['enc_name'], 'u': p['u'], 'wrote': p.get('wrote', True)}}
 
 
 # ---- fault worlds through the public entry points --------------------------------------------------
@@ -522,20 +813,56 @@ MSG_ERRNO = {'Permission denied': errno.EACCES, 'No such file or directory': err
 WRITE_FAILS = ['Permission denied', 'No such file or directory', 'Is a directory', 'No space left on device']
 
 
+def proc_of(loc):
+    """What running the kpsewhich PROGRAM gives in a world: {'kind': 'proc', 'rc', 'stdout'} or {'kind': 'error', 'strerror'} (it
+    cannot be started).  The short forms 'none' (exit 1, no output) and 'found' (exit 0, the path and a newline -- or nothing at all
+    for the empty path) are what the real program does."""
+    k = loc['kind']
+    if k == 'none':
+        return {'kind': 'proc', 'rc': 1, 'stdout': ''}
+    if k == 'found':
+        return {'kind': 'proc', 'rc': 0, 'stdout': loc['path'] + '\n' if loc['path'] else ''}
+    return loc
+
+
+def patharg(p):
+    """a path argument on the wire: str as it is, bytes as {'bytes': hex}"""
+    return {'bytes': hx(p)} if isinstance(p, bytes) else p
+
+
+def both_forms(path):
+    return [path, {'bytes': hx(os.fsencode(path))}]
+
+
+def world_req(world, only=None):
+    """the world as the driver wants it: every path of `fail` (and of `only`: the files that exist, when given) in both forms"""
+    loc = proc_of(world['locate'])
+    if loc['kind'] == 'proc':
+        loc = dict(loc, stdout=hx(os.fsencode(loc['stdout'])))
+    w = {'isfile': world['isfile'], 'environ': world['environ'], 'locate': loc,
+         'fail': [[f, m] for q, m in world['fail'] for f in both_forms(q)]}
+    if only is not None:
+        w['only'] = [f for q in only for f in both_forms(q)]
+    return w
+
+
 class World(object):
-    """pybtex.io with its four outside names replaced (and nothing else)."""
+    """pybtex.io with its outside names replaced, and the process `pybtex.kpathsea.kpsewhich` starts (and nothing else: the real
+    `kpsewhich` function runs)."""
 
     def __init__(self, world, files=None):
         self.w = world
         self.fs = dict(files or {})
         self.events = []
         self.fail = dict((p, m) for p, m in world['fail'])
+        self.proc = proc_of(world['locate'])
 
     def open(self, path, mode='r', **kw):
-        self.events.append({'ev': 'open', 'path': path, 'mode': mode, 'encoding': kw.get('encoding')})
+        self.events.append({'ev': 'open', 'path': patharg(path), 'mode': mode, 'encoding': kw.get('encoding')})
         extra = set(kw) - {'encoding'}
         if extra:
             raise TypeError('unexpected arguments to io.open: %r' % sorted(extra))
+        given, path = path, os.fsdecode(path)            # the file system knows one name for both kinds of argument
         if path in self.fail:
             # every kind of EnvironmentError counts as "cannot open": the errno follows the message of the world
             code = MSG_ERRNO.get(self.fail[path], errno.EACCES if 'w' in mode else errno.ENOENT)
@@ -543,26 +870,54 @@ class World(object):
         if 'w' not in mode and path not in self.fs:
             raise IOError(errno.ENOENT, 'No such file or directory', path)
         raw = _Keep(self.fs, path, self.fs.get(path, b'')).raw(mode)
+        raw.name = given
         if 'b' in mode:
             return raw
-        t = _io.TextIOWrapper(raw, encoding=kw.get('encoding'), newline='')
+        t = _io.TextIOWrapper(raw, encoding=kw.get('encoding'), newline=None)       # as io.open: universal newlines
         t.mode = mode
         return t
 
     def isfile(self, path):
         return path in self.w['isfile']
 
-    def kpsewhich(self, path):
-        self.events.append({'ev': 'locate', 'path': path})
-        loc = self.w['locate']
-        if loc['kind'] == 'error':
-            raise OSError(errno.ENOENT, loc['strerror'], 'kpsewhich')
-        if loc['kind'] == 'found':
-            return loc['path']
-        return None
+    def popen_class(self):
+        world = self
+
+        class FakePopen(object):
+            """subprocess.Popen as pybtex.kpathsea uses it: Popen([program, name], stdout=PIPE, stderr=PIPE), communicate(), returncode"""
+
+            def __init__(self, args, **kw):
+                args = list(args)
+                world.events.append({'ev': 'locate', 'path': args[1] if len(args) == 2 and args[0] == 'kpsewhich' else {'argv': args}})
+                if world.proc['kind'] == 'error':
+                    raise OSError(errno.ENOENT, world.proc['strerror'], 'kpsewhich')
+                self.returncode = None
+                self.args = args
+
+            def communicate(self, input=None, timeout=None):
+                self.returncode = world.proc['rc']
+                return os.fsencode(world.proc['stdout']), b''
+
+            def wait(self, timeout=None):
+                self.returncode = world.proc['rc']
+                return self.returncode
+
+            def poll(self):
+                return self.returncode
+
+            def kill(self):
+                pass
+
+            def __enter__(self):
+                return self
+
+            def __exit__(self, *a):
+                return False
+        return FakePopen
 
     def patches(self):
         import pybtex.io as pio
+        import pybtex.kpathsea as kp
         fake_io = mock.Mock(spec=['open', 'TextIOWrapper'])
         fake_io.open = self.open
         fake_io.TextIOWrapper = _io.TextIOWrapper
@@ -570,7 +925,7 @@ class World(object):
         fake_pp.isfile = self.isfile
         fake_pp.join = posixpath.join
         return [mock.patch.object(pio, 'io', fake_io), mock.patch.object(pio, 'posixpath', fake_pp),
-                mock.patch.object(pio, 'kpsewhich', self.kpsewhich), mock.patch.object(pio, 'environ', dict(self.w['environ']))]
+                mock.patch.object(kp, 'Popen', self.popen_class(), create=True), mock.patch.object(pio, 'environ', dict(self.w['environ']))]
 
     def __enter__(self):
         self._ps = self.patches()
@@ -630,6 +985,8 @@ def impl_entrypoints(case):
         return {'skip': 'writer failed', 'results': {'to_string': {'err': p['text_error']}}}
     if case.get('world') is not None:
         return impl_fault(case, p)
+    if 'more' in case:
+        return impl_multi(case, p)
     return impl_read(case, p) if case['side'] == 'read' else impl_write(case, p)
 
 
@@ -707,8 +1064,9 @@ def impl_openmatrix(case):
     real_open = W.open
 
     def open_any(path, mode='r', **kw):
-        if 'w' not in mode and path not in W.fail and path not in W.fs:
-            W.fs[path] = b''
+        key = os.fsdecode(path)
+        if 'w' not in mode and key not in W.fail and key not in W.fs:
+            W.fs[key] = b''
         return real_open(path, mode, **kw)
     W.open = open_any
     sentinel = _io.BytesIO(b'user stream')
@@ -720,12 +1078,70 @@ def impl_openmatrix(case):
             if f is sentinel:
                 res = {'ok': 'passthrough'}
             else:
-                res = {'ok': {'handle': getattr(f, 'name', None)}}
+                res = {'ok': {'handle': patharg(getattr(f, 'name', None))}}
         except Exception as e:  # noqa
             res = {'err': {'kind': compat.pybtex_error_kind(e), 'message': str(e), 'rendered': _rendered(e)}}
     if sentinel.closed or sentinel.getvalue() != b'user stream' or sentinel.tell() != 0:
         res['touched'] = True
     return {'events': W.events, 'result': res}
+
+
+# ------------------------------------------------------------------------------------------------
+# the real kpsewhich path: unpatched pybtex.io / pybtex.kpathsea, real files, a kpsewhich program of our own on PATH
+
+KPSE_DOC = '@misc{k1, note = {found through kpsewhich: café}}\n'
+
+
+def impl_kpse(case):
+    import pybtex.io as pio
+    from pybtex import database
+    if not can_run_scripts():
+        return {'skip': 'a shell script in the temporary directory cannot be started on this machine'}
+    tmp = tempfile.mkdtemp(prefix='verif-c17-')
+
+    def sub(x):
+        return x.replace('<T>', tmp)
+    try:
+        content = {}
+        for i, rel in enumerate(case['exists']):
+            path = sub(rel)
+            os.makedirs(os.path.dirname(path), exist_ok=True)
+            content[rel] = KPSE_DOC.replace('k1', 'k%d' % (i + 1)).encode('utf-8')
+            with open(path, 'wb') as f:
+                f.write(content[rel])
+        script = dict(case['script'])
+        if script['kind'] == 'print':
+            script['out'] = sub(script['out'])
+            script['arg'] = sub(case['name'])
+        with fake_kpsewhich(tmp, script):
+            try:
+                if case['fn'] == 'parse':
+                    res = {'ok': {'db': canon_db(database.parse_file(sub(case['name']), 'bibtex'))}}
+                else:
+                    f = (pio.open_raw if case['fn'] == 'raw' else pio.open_unicode)(sub(case['name']))
+                    try:
+                        data = f.read()
+                        name = f.name
+                    finally:
+                        f.close()
+                    res = {'ok': {'handle': _untmp(name, tmp), 'data': hx(data if isinstance(data, bytes) else data.encode('utf-8'))}}
+            except Exception as e:  # noqa
+                oe = _untmp(_open_error(e), tmp)
+                res = {'err': {'kind': oe['err'], 'message': oe['message'], 'rendered': oe['rendered']}}
+        want = {rel: ({'db': canon_db(database.parse_string(b.decode('utf-8'), 'bibtex'))} if case['fn'] == 'parse' else hx(b))
+                for rel, b in content.items()}
+    finally:
+        shutil.rmtree(tmp, ignore_errors=True)
+    return {'kpse': True, 'result': res, 'content': want}
+
+
+def req_kpse(case):
+    if not can_run_scripts():
+        return {'op': 'ping', 's': ''}
+    w = {'isfile': [case['name']] if case['name'] in case['exists'] else [], 'environ': [], 'fail': [],
+         'locate': script_locate(case['script'])}
+    return {'op': 'openmatrix', 'fn': 'raw' if case['fn'] == 'raw' else 'unicode', 'mode': 'rb' if case['fn'] == 'raw' else 'r', 'encoding': None,
+            'arg': 'path', 'path': case['name'], 'world': world_req(w, only=case['exists'])}
 
 
 # ------------------------------------------------------------------------------------------------
@@ -750,12 +1166,18 @@ def impl(case):
         return impl_openmatrix(case)
     if op == 'pathfn':
         return impl_pathfn(case)
+    if op == 'kpse':
+        return impl_kpse(case)
     raise ValueError(op)
 
 
 def to_request(case):
     if case['op'] == 'entrypoints':
         return req_entrypoints(case)
+    if case['op'] == 'kpse':
+        return req_kpse(case)
+    if case['op'] == 'openmatrix':
+        return dict(case, world=world_req(case['world']))
     return case
 
 
@@ -774,6 +1196,8 @@ def _model_write(out):
 
 def model_out(case, reply):
     op = case['op']
+    if 'pong' in reply:
+        return {'skip': True}
     if op == 'entrypoints':
         if 'pong' in reply:
             return {'skip': True}
@@ -791,11 +1215,13 @@ def model_out(case, reply):
         if case['side'] == 'read':
             return [o['result'] for o in out]
         return _model_write(out)
-    if op == 'openmatrix':
+    if op in ('openmatrix', 'kpse'):
         o = reply['out']
         r = o['result']
         if 'err' in r:
             r = {'err': {'kind': r['err']['kind'], 'message': r['err']['message']}}
+        if op == 'kpse':             # on the real file system the attempts cannot be watched, only their outcome
+            return {'result': 'ok' if case['fn'] == 'parse' and 'ok' in r else r}
         return {'events': _model_events(o['events']), 'result': r}
     return reply['out']
 
@@ -806,6 +1232,11 @@ def compare_view(io):
         return {'skip': True}
     if isinstance(io, dict) and 'paths' in io:
         return io['paths']
+    if isinstance(io, dict) and 'kpse' in io:
+        r = io['result']
+        if 'err' in r:
+            return {'result': {'err': {'kind': r['err']['kind'], 'message': r['err']['message']}}}
+        return {'result': 'ok' if 'db' in r['ok'] else {'ok': {'handle': r['ok']['handle']}}}
     if isinstance(io, dict) and 'reference' in io:
         r = io['result']
         if 'ok' in r and 'entries' in r['ok']:
@@ -824,6 +1255,28 @@ def compare_view(io):
         return {'to_string': r['to_string'], 'to_bytes': r['to_bytes'], 'file': r['to_file(path,name)'],
                 'stream': r['to_file(memory stream,name)']}
     return io
+
+
+_PATH_CHARS = set('abcdefghijklmnopqrstuvwxyzABCDEFGHIJKLMNOPQRSTUVWXYZ0123456789/._-~<>')
+
+
+def names_file(text, name):
+    """Does the text name the file `name` -- the name itself, not a longer path that merely contains it ('f.bib' inside '/texmf/f.bib',
+    'a.bbl' inside '/out/a.bbl')?  An occurrence counts when it is not preceded by a path character and is followed by the end of the
+    text, by a character that cannot continue a path, or by a period that ends a sentence."""
+    if not name or not isinstance(text, str):
+        return False
+    i = text.find(name)
+    while i >= 0:
+        before = text[i - 1] if i > 0 else ''
+        after = text[i + len(name):]
+        left_ok = before == '' or before not in _PATH_CHARS
+        right_ok = (after == '' or after[0] not in _PATH_CHARS or
+                    (after[0] == '.' and (len(after) == 1 or after[1] not in _PATH_CHARS)))
+        if left_ok and right_ok:
+            return True
+        i = text.find(name, i + 1)
+    return False
 
 
 def _is_internal(x):
@@ -847,7 +1300,15 @@ def oracle(case, io, reply):
                 fails.append('runtime_plugins: step %d %s raised %s (%s)' % (i, _short(o), a['err'], a.get('msg')))
                 break
             want = spec[i] if i < len(spec) else None
-            if o['o'] != 'enum' and want is not None and a != want:
+            if o['o'] == 'enum':
+                # found exactly like installed ones: the names listed for a group are the names an exact lookup in that group finds
+                # (run-time and installed alike, an alias or a suffix never); order and repetition are not part of the property
+                if isinstance(want, dict) and isinstance(a, dict) and 'names' in a and set(a['names']) != set(want['nameset']):
+                    fails.append('runtime_plugins: step %d enumerate_plugin_names(%r) lists %s, the one-table reference holds %s under that group (history %s)' % (
+                        i, o['g'], _short(sorted(set(a['names']))), _short(sorted(want['nameset'])), _short([_op_short(x) for x in case['ops'][:i]], 400)))
+                    break
+                continue
+            if want is not None and a != want:
                 clause = 'suffix_eq_name' if o['o'] == 'find' and o.get('filename') and not (o.get('name') or {}).get('v') else 'runtime_plugins'
                 fails.append('%s: step %d %s gives %s, the one-table reference gives %s (history %s)' % (
                     clause, i, _short(o), _short(a), _short(want), _short([_op_short(x) for x in case['ops'][:i]], 400)))
@@ -868,8 +1329,8 @@ def oracle(case, io, reply):
             e = r['err']
             if e['kind'] != 'PybtexError':
                 fails.append('open_faults: failure to open %r surfaced as %s: %s' % (case['path'], e['kind'], e['message'][:120]))
-            elif case['path'] not in e['rendered']:
-                fails.append('open_faults: the error does not name the file %r: %r' % (case['path'], e['rendered']))
+            elif not names_file(e['rendered'], case['path']):
+                fails.append('open_faults: the error does not name the file %r (the name given, as a whole): %r' % (case['path'], e['rendered']))
         if 'w' in case['mode']:
             env = dict(w['environ'])
             want = [case['path']]
@@ -888,6 +1349,41 @@ def oracle(case, io, reply):
         else:
             if len(opens) > 1:
                 fails.append('open_faults: %d open attempts for a read' % len(opens))
+            # the kpsewhich lookup: a name that is not a file, the program exits with 0 and prints the path of a file that can be
+            # opened, followed by a newline (what the real program does): that file is what gets opened
+            proc = proc_of(w['locate'])
+            if case['path'] not in w['isfile'] and proc['kind'] == 'proc' and proc['rc'] == 0 and proc['stdout'].endswith('\n'):
+                found = proc['stdout'][:-1]
+                if found and found == found.strip() and found not in failing:
+                    got = r.get('ok', {}).get('handle') if 'ok' in r else None
+                    if got not in both_forms(found):
+                        fails.append('kpsewhich_lookup: kpsewhich printed %r for %r and that file can be opened, but the call ended in %s' % (
+                            proc['stdout'], case['path'], _short(r)))
+        return fails
+    if op == 'kpse':
+        if 'skip' in io:
+            return fails
+        r = io['result']
+        name, script = case['name'], case['script']
+        if 'err' in r:
+            e = r['err']
+            if e['kind'] != 'PybtexError':
+                fails.append('open_faults: failure to open %r (kpsewhich: %s) surfaced as %s: %s' % (name, _short(script), e['kind'], e['message'][:120]))
+            elif not names_file(e['rendered'], name):
+                fails.append('open_faults: the error does not name the file %r (the name given, as a whole): %r' % (name, e['rendered']))
+        target = None
+        if name in case['exists']:
+            target = name
+        elif script['kind'] == 'print' and script['rc'] == 0 and script['out'].endswith('\n') and script['out'][:-1] in case['exists']:
+            target = script['out'][:-1]
+        if target is not None:
+            want = io['content'][target]
+            got = r['ok'].get('data', r['ok']) if 'ok' in r else None
+            if got != want:
+                fails.append('%s: %r %s and can be opened, but %s ended in %s' % (
+                    'entry_points_agree' if target == name else 'kpsewhich_lookup', target,
+                    'exists' if target == name else 'is what kpsewhich printed for %r' % name,
+                    {'raw': 'open_raw', 'unicode': 'open_unicode', 'parse': 'parse_file'}[case['fn']], _short(r)))
         return fails
     # entrypoints
     if 'skip' in io:
@@ -902,8 +1398,8 @@ def oracle(case, io, reply):
             if r['err'] != 'PybtexError':
                 fails.append('open_faults: %s of %r in a world with failing opens raised %s: %s' % (
                     'parse_file' if case['side'] == 'read' else 'to_file', case['path'], r['err'], r.get('message', '')[:120]))
-            elif case['path'] not in r.get('rendered', ''):
-                fails.append('open_faults: the error does not name the file %r: %r' % (case['path'], r.get('rendered')))
+            elif not names_file(r.get('rendered', ''), case['path']):
+                fails.append('open_faults: the error does not name the file %r (the name given, as a whole): %r' % (case['path'], r.get('rendered')))
         elif case['side'] == 'read':
             if r['ok'] != io['reference']:
                 fails.append('entry_points_agree: parse_file through the fall-back location differs from parse_string')
@@ -917,6 +1413,17 @@ def oracle(case, io, reply):
         if _is_internal(v):
             fails.append('entry_points_agree: %s raised %s (format %s, encoding %s)' % (k, v['err'], case['fmt'], case['enc']))
     if fails:
+        return fails
+    if io.get('multi'):
+        got, ref = res['Parser.parse_files'], res['reference']
+        if 'missing' in ref:
+            if got.get('err') != 'PybtexError':
+                fails.append('open_faults: parse_files with the file %r missing ended in %s' % (ref['missing'], _short(got)))
+            elif not names_file(got.get('rendered', ''), ref['missing']):
+                fails.append('open_faults: the error does not name the missing file %r (as a whole): %r' % (ref['missing'], got.get('rendered')))
+        elif {k: got.get(k) for k in ('ok', 'err')} != {k: ref.get(k) for k in ('ok', 'err')}:
+            fails.append('entry_points_agree: parse_files over %d files differs from parsing the %d strings in turn on one parser (format %s, encoding %s): %s vs %s' % (
+                case['nfiles'], case['nfiles'], case['fmt'], case['enc'], _short(got), _short(ref)))
         return fails
     if case['side'] == 'read':
         ref = res['parse_string']
@@ -937,12 +1444,12 @@ def oracle(case, io, reply):
         fails.append('write_entry_points: to_bytes is not the to_string document%s encoded in %s (format %s): got %s want %s' % (
             ' with its XML declaration' if meta['family'] == 'bibtexml' else '', enc, case['fmt'], _short(_peek(res['to_bytes'])), _short(_peek(want))))
         return fails
-    bom_corner = meta['u'] and text == '' and want != ''
+    bom_corner = meta['u'] and text == '' and want != '' and not meta.get('wrote', True)
     for k, v in res.items():
         if k in ('to_string', 'Writer.to_string'):
             if v != text:
                 fails.append('write_entry_points: %s differs from to_string' % k)
-        elif k == 'to_file(memory stream,name)':
+        elif k.startswith('to_file(') and 'memory stream' in k:
             wantv = streamj(text if meta['u'] else bytes.fromhex(want))
             if v != wantv:
                 fails.append('write_entry_points: a file-like object received %s, expected %s' % (_short(v), _short(wantv)))
@@ -996,13 +1503,15 @@ def buckets(case, io):
     if op == 'entrypoints':
         if isinstance(io, dict) and 'skip' in io:
             return ['entrypoints:skip:' + io['skip'].split(':')[0]]
-        tag = 'fault' if case.get('world') is not None else 'agree'
+        tag = 'fault' if case.get('world') is not None else ('files%d%s' % (case['nfiles'], '-missing' if case.get('missing') is not None else '') if 'more' in case else 'agree')
         return ['entrypoints:%s:%s:%s:%s' % (case['side'], tag, case['fmt'], case['enc'])]
     if op == 'plughist':
         return ['plughist:len=%d' % len([o for o in case['ops'] if o['o'] == 'register'])]
     if op == 'openmatrix':
         r = io['result']
         return ['openmatrix:%s:%s:%s' % (case['arg'], 'write' if 'w' in case['mode'] else 'read', 'ok' if 'ok' in r else 'error')]
+    if op == 'kpse':
+        return ['kpse:skip'] if 'skip' in io else ['kpse:%s:%s:%s' % (case['fn'], case['script']['kind'], 'ok' if 'ok' in io['result'] else 'error')]
     return ['pathfn:' + case['fn']]
 
 
@@ -1014,15 +1523,52 @@ def corpus():
     return corpus_for(ID)
 
 
+def _valid_db(d):
+    try:
+        return (isinstance(d, dict) and all(isinstance(x, str) for x in d.get('preamble', [])) and
+                all(isinstance(k, str) and isinstance(t, str) and all(isinstance(f, str) and isinstance(v, str) for f, v in fs) and
+                    all(isinstance(r, str) and all(isinstance(n, str) for n in ns) for r, ns in ps) for k, t, fs, ps in d['entries']))
+    except Exception:  # noqa
+        return False
+
+
+def _valid_world(w):
+    def pairs(l):
+        return isinstance(l, list) and all(isinstance(x, list) and len(x) == 2 and all(isinstance(y, str) for y in x) for x in l)
+    if not (isinstance(w, dict) and isinstance(w.get('isfile'), list) and all(isinstance(x, str) for x in w['isfile']) and
+            pairs(w.get('fail')) and pairs(w.get('environ')) and isinstance(w.get('locate'), dict)):
+        return False
+    loc = w['locate']
+    k = loc.get('kind')
+    return (k == 'none' or (k == 'found' and isinstance(loc.get('path'), str)) or (k == 'error' and isinstance(loc.get('strerror'), str)) or
+            (k == 'proc' and isinstance(loc.get('rc'), int) and isinstance(loc.get('stdout'), str)))
+
+
 def valid_case(c):
     if c.get('op') == 'plughist':
         return isinstance(c.get('ops'), list) and all(isinstance(o, dict) and o.get('o') in ('register', 'find', 'enum') and
                                                       (o['o'] != 'register' or (o.get('k') in ('K1', 'K2', 'K3') and isinstance(o.get('force'), bool)))
                                                       for o in c['ops'])
     if c.get('op') == 'entrypoints':
-        return c.get('side') in ('read', 'write') and isinstance(c.get('bib'), str) and isinstance(c.get('fmt'), str) and '\r' not in c['bib']
+        if 'more' in c and not (isinstance(c['more'], list) and all(isinstance(b, str) for b in c['more']) and isinstance(c.get('bib'), str) and
+                                isinstance(c.get('nfiles'), int) and 0 <= c['nfiles'] <= len(c['more']) + 1 and c.get('side') == 'read' and
+                                (c.get('missing') is None or (isinstance(c['missing'], int) and 0 <= c['missing'] < c['nfiles']))):
+            return False
+        if c.get('world') is not None and not (isinstance(c.get('path'), str) and c['path'] and isinstance(c.get('files'), list) and
+                                               all(isinstance(x, str) for x in c['files']) and _valid_world(c['world'])):
+            return False
+        if 'db' in c and not _valid_db(c['db']):
+            return False
+        return c.get('side') in ('read', 'write') and (isinstance(c.get('bib'), str) or 'db' in c) and isinstance(c.get('fmt'), str)
+    if c.get('op') == 'kpse':
+        sc = c.get('script')
+        return (isinstance(sc, dict) and sc.get('kind') in ('print', 'missing', 'noexec') and c.get('fn') in ('raw', 'unicode', 'parse') and
+                isinstance(c.get('name'), str) and c['name'].startswith('<T>/') and "'" not in c['name'] and isinstance(c.get('exists'), list) and
+                all(isinstance(x, str) and x.startswith('<T>/') for x in c['exists']) and
+                (sc['kind'] != 'print' or (isinstance(sc.get('rc'), int) and 0 <= sc['rc'] < 256 and isinstance(sc.get('out'), str))))
     if c.get('op') == 'openmatrix':
-        return bool(c.get('path')) and isinstance(c.get('world'), dict) and c.get('mode') in ('r', 'rb', 'w', 'wb')
+        return (isinstance(c.get('path'), str) and bool(c['path']) and _valid_world(c.get('world')) and c.get('mode') in ('r', 'rb', 'w', 'wb') and
+                c.get('fn') in ('raw', 'unicode') and c.get('arg') in ('path', 'stream') and 'encoding' in c)
     return c.get('op') == 'pathfn'
 
 
@@ -1127,7 +1673,13 @@ def gen_openmatrix(info):
         for path in ('f.bib', 'sub/f.bst'):
             for isfile in (True, False):
                 for loc in ({'kind': 'none'}, {'kind': 'found', 'path': '/texmf/' + path}, {'kind': 'found', 'path': ''},
-                            {'kind': 'error', 'strerror': 'No such file or directory'}):
+                            {'kind': 'error', 'strerror': 'No such file or directory'}, {'kind': 'error', 'strerror': 'Permission denied'},
+                            {'kind': 'proc', 'rc': 0, 'stdout': '/texmf/' + path},                    # no final newline
+                            {'kind': 'proc', 'rc': 0, 'stdout': '/texmf/' + path + ' \t\r\n\n'},        # trailing white space of every kind
+                            {'kind': 'proc', 'rc': 0, 'stdout': ' \n'},                               # white space only
+                            {'kind': 'proc', 'rc': 1, 'stdout': '/texmf/' + path + '\n'},             # printed something but failed
+                            {'kind': 'proc', 'rc': -9, 'stdout': ''},                                 # killed
+                            {'kind': 'proc', 'rc': 0, 'stdout': ' /tex mf/\u00fc\u4e2d/' + path + '\x0b\x0c\n'}):   # inner / leading blanks, non-ASCII
                     for fail_p in (False, True):
                         for fail_q in (False, True):
                             fail = ([[path, 'No such file or directory']] if fail_p else []) + \
@@ -1172,13 +1724,86 @@ def gen_pathfn(info):
     return cases
 
 
-ENCODINGS = [None, 'utf-8', 'utf-16', 'latin-1']
+# the four encodings of round 1, then alias spellings of the same codecs and other codecs able to represent (some of) the documents:
+# how a codec is CALLED must not matter, and a codec is a parameter of the theorems (only dec (enc s) = s is assumed)
+ENCODINGS = [None, 'utf-8', 'utf-16', 'latin-1', 'utf8', 'UTF8', 'U8', 'utf-8-sig', 'utf-16-le', 'utf-32', 'L1', 'cp1252', 'iso-8859-15', 'ascii']
 
 
 def format_names():
-    """every name and alias of the reader group (the writer group has the same)"""
+    """every name and alias of the reader group (the writer group has the same), then the synthetic third-party plug-ins
+    (registered at run time: a name and an alias each)"""
     t = installed_table()
-    return sorted({n for g, n, _v in t if g in (IN, IN + '.aliases')} & {n for g, n, _v in t if g in (OUT, OUT + '.aliases')})
+    inst = sorted({n for g, n, _v in t if g in (IN, IN + '.aliases')} & {n for g, n, _v in t if g in (OUT, OUT + '.aliases')})
+    return inst + sorted(SYNTH) + [SYNTH['verif-synb'][2]]
+
+
+MULTI_DOCS = ['@article{m1, title = {Caf\u00e9 one}, author = {Kn\u00fcth, D.}}\n',
+              '@book{m2, title = {Zwei stra\u00dfe}}\n@misc{m2b, note = {x}}\n',
+              '@misc{m3, note = {\u00dcn\u00ef three}}\n']
+# (number of files, index of the missing one)
+MULTI_SHAPES = [(0, None), (1, None), (2, None), (3, None), (3, 1), (2, 0), (3, 2), (1, 0)]
+
+
+PROG_VALUES = ['a\rb', 'a\r\nb', ' lead', 'trail ', 'tab\there', 'end\r', '\r\n', 'x\n\ny', 'a \r b', 'a\r\rb', 'caf\u00e9\r\nstra\u00dfe \u00a0x']
+
+
+def prog_dbs():
+    """databases built programmatically: raw CR / CRLF, tabs, outer blanks in field values, names and the preamble"""
+    dbs = [{'preamble': [], 'entries': [['k', 'misc', [['note', v], ['title', 'T']], [['author', ['Kn\u00fcth, D.']]]]]} for v in PROG_VALUES]
+    dbs.append({'preamble': ['pre\ramble', 'two\r\n'], 'entries': [
+        ['k1', 'article', [['f%d' % i, v] for i, v in enumerate(PROG_VALUES)], [['author', ['A\rB C', 'D\r\nE, F']], ['editor', [' G  H ']]]],
+        ['k2', 'misc', [['note', '\r']], []]]})
+    return dbs
+
+
+def gen_prog(fmts):
+    return [{'op': 'entrypoints', 'side': side, 'fmt': fmt, 'enc': enc, 'db': db}
+            for db in prog_dbs() for fmt in fmts for enc in (None, 'latin-1', 'utf-16') for side in ('read', 'write')]
+
+
+def gen_multi(fmts):
+    cases = []
+    for fmt in fmts:
+        for enc in (None, 'latin-1', 'utf-16', 'utf8'):
+            for n, missing in MULTI_SHAPES:
+                if missing is not None and not can_run_scripts():
+                    continue
+                cases.append({'op': 'entrypoints', 'side': 'read', 'fmt': fmt, 'enc': enc, 'bib': MULTI_DOCS[0], 'more': MULTI_DOCS[1:],
+                              'nfiles': n, 'missing': missing})
+        # the same key in two files: the second file is refused, by parse_files as by parse_string
+        cases.append({'op': 'entrypoints', 'side': 'read', 'fmt': fmt, 'enc': None, 'bib': MULTI_DOCS[0], 'more': [MULTI_DOCS[2], MULTI_DOCS[0]],
+                      'nfiles': 3, 'missing': None})
+    return cases
+
+
+def gen_kpse(info):
+    if not can_run_scripts():
+        info['scope_kpse'] = 'kpsewhich program on PATH: LEFT OUT (a shell script in the temporary directory cannot be started on this machine)'
+        return []
+    name, target = '<T>/in/f.bib', '<T>/texmf/f.bib'
+    odd = '<T>/tex mf \u00fc\u4e2d/f.bib'
+    worlds = [
+        ({'kind': 'print', 'rc': 0, 'out': target + '\n'}, [target]),                    # found
+        ({'kind': 'print', 'rc': 0, 'out': target + '\n'}, []),                          # prints a path that does not exist
+        ({'kind': 'print', 'rc': 0, 'out': target}, [target]),                           # no final newline
+        ({'kind': 'print', 'rc': 0, 'out': target + ' \t\r\n\n'}, [target]),              # trailing white space of every kind
+        ({'kind': 'print', 'rc': 0, 'out': odd + '\n'}, [odd]),                          # blanks and non-ASCII in the path
+        ({'kind': 'print', 'rc': 1, 'out': ''}, [target]),                               # not found (exit 1)
+        ({'kind': 'print', 'rc': 1, 'out': target + '\n'}, [target]),                    # exit 1 although it printed the path
+        ({'kind': 'print', 'rc': 2, 'out': 'kpsewhich: trouble\n'}, []),
+        ({'kind': 'print', 'rc': 255, 'out': ''}, []),
+        ({'kind': 'print', 'rc': 0, 'out': ''}, [target]),                               # exit 0 without output
+        ({'kind': 'print', 'rc': 0, 'out': '\n'}, [target]),
+        ({'kind': 'missing'}, [target]),                                                # no such program
+        ({'kind': 'noexec'}, [target]),                                                 # the program may not be executed
+        ({'kind': 'missing'}, [name]),                                                  # the name is a file: no lookup at all
+        ({'kind': 'print', 'rc': 0, 'out': target + '\n'}, [name, target]),              # the name is a file: it wins
+    ]
+    cases = [{'op': 'kpse', 'fn': fn, 'script': sc, 'name': name, 'exists': ex} for sc, ex in worlds for fn in ('raw', 'unicode', 'parse')]
+    info['scope_kpse'] = ('%d runs of open_raw / open_unicode / parse_file on real temporary files with a kpsewhich program of our own first on PATH '
+                          '(found, wrong path, no newline, trailing white space, blanks and non-ASCII, exit 1 / 2 / 255, no output, missing program, '
+                          'not executable, name is a file)' % len(cases))
+    return cases
 
 
 def _inject(rng, doc, pool):
@@ -1193,7 +1818,12 @@ def _inject(rng, doc, pool):
 
 def gen_entrypoints(tier, rng, info):
     cases = []
+    ensure_synth()
     fmts = format_names()
+    multi = gen_multi(fmts)
+    cases += multi
+    prog = gen_prog(fmts)
+    cases += prog
     n_fixed = 0
     for bib in FIXED_DBS:
         for fmt in fmts:
@@ -1234,21 +1864,25 @@ def gen_entrypoints(tier, rng, info):
                         w = {'isfile': [], 'locate': {'kind': 'none'}, 'fail': fail, 'environ': [['TEXMFOUTPUT', tex]] if tex else []}
                         cases.append(dict(wr, world=w, path='o.dat', files=[]))
                         n_fault += 1
-    n_rand = 150 if tier == 'quick' else 1500
+    n_rand = 90 if tier == 'quick' else 600
     for i in range(n_rand):
         doc = bibgen.gen_doc(rng, max_cmds=4)
         l1 = rng.random() < 0.4
         doc = _inject(rng, doc, INJECT_L1 if l1 else INJECT_L1 + INJECT_ANY)
         bib = bibgen.render(doc, bibgen.Layout([], rng), {'ws': rng.choice([0, 1, 3, 4, 7])})
         for fmt in fmts:
-            encs = ENCODINGS if l1 else ENCODINGS[:3]
-            for enc in (encs if tier != 'quick' else [rng.choice(encs), rng.choice(encs)]):
+            encs = ENCODINGS if l1 else [e for e in ENCODINGS if e is None or e.lower().replace('_', '-').startswith(('u', 'utf'))]
+            for enc in (encs if tier != 'quick' else [rng.choice(encs[:3]), rng.choice(encs)]):
                 for side in ('read', 'write'):
                     cases.append({'op': 'entrypoints', 'side': side, 'fmt': fmt, 'enc': enc, 'bib': bib})
             if fmt == 'bibtex':
                 cases.append({'op': 'entrypoints', 'side': 'read', 'fmt': fmt, 'enc': rng.choice(encs), 'bib': bib, 'source': 'bib'})
-    info['scope_entry'] = ('%d hand-made databases x format names %r x encodings %r x {read, write}: every entry point and every registered suffix (%d cases); '
-                           '%d fault worlds through parse_file / to_file; %d random databases' % (len(FIXED_DBS), fmts, ENCODINGS, n_fixed, n_fault, n_rand))
+    info['scope_entry'] = ('%d hand-made databases x format names %r (installed names and aliases, then the synthetic third-party plug-ins registered at run '
+                           'time: unicode_io True / False) x encodings %r x {read, write}: every entry point and every registered suffix (%d cases); '
+                           'parse_files over %r (files, missing index) x formats x 4 encodings (%d cases); %d programmatically built databases (raw CR / CRLF, '
+                           'tabs, outer blanks in fields, names, preamble) x formats x 3 encodings x {read, write} (%d cases); '
+                           '%d fault worlds through parse_file / to_file; %d random databases' % (
+                               len(FIXED_DBS), fmts, ENCODINGS, n_fixed, MULTI_SHAPES, len(multi), len(prog_dbs()), len(prog), n_fault, n_rand))
     return cases
 
 
@@ -1257,27 +1891,33 @@ def gen_cases(tier, rng, info):
     cases = []
     cases += gen_pathfn(info)
     cases += gen_openmatrix(info)
+    cases += gen_kpse(info)
     cases += gen_plughist(tier, rng, info)
     cases += gen_entrypoints(tier, rng, info)
     info['exhaustive'] = True
-    info['scope'] = '; '.join(info.pop(k) for k in ('scope_entry', 'scope_plug', 'scope_open', 'scope_path'))
+    info['scope'] = '; '.join(info.pop(k) for k in ('scope_entry', 'scope_plug', 'scope_open', 'scope_kpse', 'scope_path'))
     return cases
 
 
 LEVEL_TEXT = ('Machine-checked (Lean 4) theorems about an executable model of pybtex\'s entry-point plumbing: the unicode_io dispatch of BaseParser / BaseWriter and '
-              'the BibTeX / BibTeXML overrides (all entry points are one computation up to the codec), find_plugin / register_plugin over the regenerated '
+              'the overrides of the installed classes (all entry points are one computation up to the codec and the newline translation of a text-mode file; '
+              'parse_files is the sequential composition of parse_file), find_plugin / register_plugin / enumerate_plugin_names over the regenerated '
               'entry-point tables and a run-time registry (refinement to a one-table reference by induction over every history; suffix = name decided over the '
-              'tables and lifted to every file name), and pybtex.io._open with its kpsewhich and TEXMFOUTPUT logic (every failure pattern, with the sequence of '
-              'open attempts). Tied to the code by a correspondence check that drives every public entry point on real files and streams, real codecs, the real '
-              'module registry and a patched pybtex.io.')
+              'tables and lifted to every file name), pybtex.io._open with its TEXMFOUTPUT logic (every failure pattern, with the sequence of open attempts) and '
+              'pybtex.kpathsea.kpsewhich over every behaviour of the program. Tied to the code by a correspondence check that drives every public entry point on '
+              'real files and streams, real codecs (14 spellings), installed and synthetic third-party plug-ins, the real module registry, a patched pybtex.io and '
+              'an unpatched one with a kpsewhich program of our own on PATH.')
 LEVEL_NOTE = ('PARTIAL by nature. MODELLED and proved: which core function each entry point reaches and with what (text or bytes, encoded/decoded by which codec '
-              'call), what write_file leaves in the file, the XML declaration + strip/newline bookkeeping of the BibTeXML writer, plug-in lookup order / aliases / '
-              'suffixes / force, os.path.splitext and posixpath.join, the open / fall-back / error-wrapping logic and the order of open attempts. ASSUMED (parameters '
-              'of the theorems, exercised for real by the correspondence but never proved): the codecs (only `dec (enc s) = s` for the document at hand is used), '
-              'TextIOWrapper = codec (+ identity newline translation), that a file yields the bytes written to it, the plug-ins\' own parsing and printing cores '
-              '(BibTeX reader/writer, PyYAML, xml.sax, ElementTree: "ElementTree reads a declared, encoded document as it reads the text" is a hypothesis), '
-              'kpsewhich, os.environ, importlib.metadata (its answer is regenerated into Gen/Plugins.lean and compared with setup.py; stale metadata breaks the '
-              'build), latexcodec. Not covered: undecodable bytes handed to parse_bytes (UnicodeDecodeError by design of the API), streams of the wrong kind '
+              'call, newline-translated or not), what write_file leaves in the file, the XML declaration + strip/newline bookkeeping of the BibTeXML writer, plug-in '
+              'lookup order / aliases / suffixes / force / enumeration, os.path.splitext and posixpath.join, the open / fall-back / error-wrapping logic and the order '
+              'of open attempts, kpsewhich (cannot start / return code / bytes.rstrip of the output / bytes path). ASSUMED (parameters of the theorems, exercised for '
+              'real by the correspondence but never proved): the codecs (only `dec (enc s) = s` for the document at hand is used -- stated as a hypothesis, whatever the '
+              'codec is called), TextIOWrapper = codec + universal newlines on reading, that a file yields the bytes written to it, the plug-ins\' own parsing and '
+              'printing cores (BibTeX reader/writer, PyYAML, xml.sax, ElementTree: "ElementTree ignores the XML declaration inside a str" is hypothesis hdecl), the '
+              'kpsewhich program, os.environ, importlib.metadata (its answer is regenerated into Gen/Plugins.lean and compared with setup.py; stale metadata breaks '
+              'the build), latexcodec. Not covered: undecodable bytes handed to parse_bytes (UnicodeDecodeError by design of the API), streams of the wrong kind '
               '(text stream to a byte plug-in), newline translation on non-POSIX platforms, concurrent modification of the registry. The model follows /repo WITH '
-              'proposed fixes C17-1 (plugin), C17-2 (YAML plug-ins honour `encoding`), C17-3 (BibTeXML parse_string). Recorded boundary (finding C17-empty-document-bom, '
-              'C17_write_file_partial / _neg): for the EMPTY document under a byte-order-mark codec to_bytes is the mark while the written file stays empty.')
+              'proposed fixes C17-1 (plugin), C17-2 (YAML plug-ins honour `encoding`), C17-3 (BibTeXML parse_string), C17-4 (BibTeXML reader decodes with the encoding '
+              'it was given: proposed_fixes/C17-4.*; on a tree without it the check reports the BibTeXML byte / file entry points under e.g. encoding utf8 as a '
+              'failing input). Recorded boundary (finding C17-empty-document-bom, C17_write_file_partial / _neg): for an EMPTY document written without any write '
+              'call under a byte-order-mark codec to_bytes is the mark while the written file stays empty.')
